@@ -131,7 +131,8 @@ def run(ctx):
     # the Design obligation (exact-name short cut lies in Covering; window = find over +-R) is the C01 design run
     c01.design_check(ctx, "yearend6h", "Y/M/D", 10, 1 if quick else 2, 4, [1])
     combos = [("yearend6h", "flat"), ("yearend6h", "Y/M"), ("yearend6h", "Y/M/D"), ("yearend6h", "Y/doy"),
-              ("leapday6h", "Y/M/D"), ("hour15m", "Y/M/D/H"), ("hour15m", "Y/M/D"), ("yearend6h", "Y/tag/M/D")]
+              ("leapday6h", "Y/M/D"), ("hour15m", "Y/M/D/H"), ("hour15m", "Y/M/D"), ("yearend6h", "Y/tag/M/D"),
+              ("yearend6h", "Y/M/D/tag")]
     items = []
     T = 10 if quick else 12
     by_R = {}
